@@ -35,6 +35,9 @@ type World struct {
 	SSA    map[string]*ssa.Package
 	Sizes  types.Sizes
 
+	Inlined []string // calls to new helpers replaced by the helper's body before analysis (srcinline.go)
+	known   func(*types.Func) bool
+
 	srcFuncs []*ssa.Function
 }
 
@@ -83,30 +86,87 @@ func LoadMod(dir, goarch, modPrefix string, minPkgs int) (*World, error) {
 	}
 	env = append(env, "GOFLAGS=-mod=mod", "GOPROXY=off", "GOWORK=off", "GOSUMDB=off",
 		"GOTOOLCHAIN=local", "CGO_ENABLED=0", "GOOS=linux", "GOARCH="+goarch)
-	fset := token.NewFileSet()
-	cfg := &packages.Config{
-		Mode: packages.NeedName | packages.NeedFiles | packages.NeedCompiledGoFiles |
-			packages.NeedImports | packages.NeedDeps | packages.NeedTypes | packages.NeedTypesSizes |
-			packages.NeedSyntax | packages.NeedTypesInfo | packages.NeedModule | packages.NeedEmbedFiles,
-		Dir:   dir,
-		Env:   env,
-		Fset:  fset,
-		Tests: false,
-	}
-	pkgs, err := packages.Load(cfg, "./...")
-	if err != nil {
-		return nil, fmt.Errorf("go/packages: %w", err)
-	}
-	var errs []string
-	packages.Visit(pkgs, nil, func(p *packages.Package) {
-		for _, e := range p.Errors {
-			errs = append(errs, e.Error())
+	known := func(f *types.Func) bool { return true }
+	overlay := map[string][]byte{}
+	var fset *token.FileSet
+	var pkgs []*packages.Package
+	var inlineNotes []string
+	loadOnce := func(ov map[string][]byte) (*token.FileSet, []*packages.Package, error) {
+		fs := token.NewFileSet()
+		cfg := &packages.Config{
+			Mode: packages.NeedName | packages.NeedFiles | packages.NeedCompiledGoFiles |
+				packages.NeedImports | packages.NeedDeps | packages.NeedTypes | packages.NeedTypesSizes |
+				packages.NeedSyntax | packages.NeedTypesInfo | packages.NeedModule | packages.NeedEmbedFiles,
+			Dir:     dir,
+			Env:     env,
+			Fset:    fs,
+			Tests:   false,
+			Overlay: ov,
 		}
-	})
-	if len(errs) > 0 {
-		return nil, fmt.Errorf("load/type errors: %s", strings.Join(errs, "; "))
+		ps, err := packages.Load(cfg, "./...")
+		if err != nil {
+			return nil, nil, fmt.Errorf("go/packages: %w", err)
+		}
+		var errs []string
+		packages.Visit(ps, nil, func(p *packages.Package) {
+			for _, e := range p.Errors {
+				errs = append(errs, e.Error())
+			}
+		})
+		if len(errs) > 0 {
+			return nil, nil, fmt.Errorf("load/type errors: %s", strings.Join(errs, "; "))
+		}
+		return fs, ps, nil
 	}
-	w := &World{Dir: dir, GOARCH: goarch, Fset: fset, Pkgs: map[string]*packages.Package{}, SSA: map[string]*ssa.Package{}}
+	var err error
+	fset, pkgs, err = loadOnce(nil)
+	if err != nil {
+		return nil, err
+	}
+	if !noSrcInline {
+		if modPrefix == modulePath {
+			var repoPkgs []*packages.Package
+			for _, p := range pkgs {
+				if strings.HasPrefix(p.PkgPath, modPrefix) {
+					repoPkgs = append(repoPkgs, p)
+				}
+			}
+			known = knownPredicate(repoPkgs)
+		} else {
+			known = func(f *types.Func) bool { return !strings.HasPrefix(f.Name(), "inl") }
+		}
+	}
+	for round := 1; round <= 4 && !noSrcInline; round++ {
+		var repoPkgs []*packages.Package
+		for _, p := range pkgs {
+			if strings.HasPrefix(p.PkgPath, modPrefix) {
+				repoPkgs = append(repoPkgs, p)
+			}
+		}
+		next := map[string][]byte{}
+		for k, v := range overlay {
+			next[k] = v
+		}
+		il := &inliner{fset: fset, pkgs: repoPkgs, overlay: next, known: known, round: round}
+		n, notes := il.planRound()
+		if n == 0 {
+			break
+		}
+		fs2, ps2, err2 := loadOnce(next)
+		if err2 != nil {
+			// the rewritten source does not type-check: analyse what we had
+			inlineNotes = append(inlineNotes, fmt.Sprintf("inlining round %d dropped: %v", round, err2))
+			if os.Getenv("VCHECK_INLINE_DEBUG") != "" {
+				for f, b := range next {
+					os.WriteFile("/tmp/vcheck_inline_"+filepath.Base(f), b, 0o644)
+				}
+			}
+			break
+		}
+		fset, pkgs, overlay = fs2, ps2, next
+		inlineNotes = append(inlineNotes, notes...)
+	}
+	w := &World{Dir: dir, GOARCH: goarch, Fset: fset, Pkgs: map[string]*packages.Package{}, SSA: map[string]*ssa.Package{}, Inlined: inlineNotes, known: known}
 	for _, p := range pkgs {
 		if !strings.HasPrefix(p.PkgPath, modPrefix) {
 			continue
@@ -180,8 +240,67 @@ func (w *World) SrcFuncs() []*ssa.Function {
 			}
 		}
 	}
+	// a new helper whose every call was inlined is dead in the normalised program: its code is
+	// analysed inside each caller
+	if len(w.Inlined) > 0 && w.known != nil {
+		used := map[*ssa.Function]bool{}
+		for _, f := range out {
+			for _, b := range f.Blocks {
+				for _, in := range b.Instrs {
+					var ops []*ssa.Value
+					for _, op := range in.Operands(ops) {
+						if g, ok := (*op).(*ssa.Function); ok && g != f {
+							used[g] = true
+						}
+					}
+				}
+			}
+		}
+		var live []*ssa.Function
+		dead := map[*ssa.Function]bool{}
+		for _, f := range out {
+			r := rootFn(f)
+			if obj, ok := r.Object().(*types.Func); ok && !obj.Exported() && !w.known(obj) && !used[r] && r.Signature.Recv() == nil {
+				dead[r] = true
+			} else if ok && !obj.Exported() && !w.known(obj) && !used[r] && !w.mayBeInvoked(r) {
+				dead[r] = true
+			}
+		}
+		for _, f := range out {
+			if !dead[rootFn(f)] {
+				live = append(live, f)
+			}
+		}
+		out = live
+	}
 	w.srcFuncs = out
 	return out
+}
+
+// mayBeInvoked: the method could be the target of an interface call (some interface used in
+// the program has a method of that name).
+func (w *World) mayBeInvoked(f *ssa.Function) bool {
+	name := f.Name()
+	for _, p := range w.All {
+		for _, obj := range p.TypesInfo.Defs {
+			tn, ok := obj.(*types.TypeName)
+			if !ok {
+				continue
+			}
+			if it, ok := tn.Type().Underlying().(*types.Interface); ok {
+				for i := 0; i < it.NumMethods(); i++ {
+					if it.Method(i).Name() == name {
+						return true
+					}
+				}
+			}
+		}
+	}
+	switch name {
+	case "String", "Error", "Len", "Less", "Swap", "Set", "MarshalText", "UnmarshalText", "MarshalJSON", "UnmarshalJSON", "UnmarshalYAML", "MarshalYAML", "Write", "Read", "Close":
+		return true
+	}
+	return false
 }
 
 func (w *World) pkgNames() []string {
